@@ -9,17 +9,17 @@ namespace DarkluaModel.Sem.Heap
 set_option linter.unusedSectionVars false
 
 /-- `Q` relates every function body to itself under any dead set it does not reference -/
-def QRefl (Q : QRel) : Prop := ∀ D f, NoRefF D f → Q D f f
+def QRefl (cx : Cx) (Q : QRel) : Prop := ∀ D f, NoRefF D f → Q D f f
 
 theorem NoRefF.addSelf {D : List String} {m : Option String} {f : FnBody} (h : NoRefF D f) :
     NoRefF D (addSelf m f) := by
   cases m <;> cases f <;> exact h
 
-variable {Q : QRel} (hq : QRefl Q)
+variable {Q : QRel} (hq : QRefl cx Q)
 include hq
 
 mutual
-  theorem reflE : ∀ (e : Expr) (D : List String), NoRefE D e → SoundE Q D e e
+  theorem reflE : ∀ (e : Expr) (D : List String), NoRefE D e → SoundE Q cx D e e
     | .nil, _, h => SoundE.leaf rfl h
     | .true, _, h => SoundE.leaf rfl h
     | .false, _, h => SoundE.leaf rfl h
@@ -41,15 +41,15 @@ mutual
     | .interp segs, D, h => SoundE.interp (reflSegs segs D (NoRefE.interp.mp h))
     | .cast e _, D, h => SoundE.cast (reflE e D (NoRefE.cast.mp h))
     | .inst e _, D, h => SoundE.inst (reflE e D (NoRefE.inst.mp h))
-  theorem reflEs : ∀ (es : List Expr) (D : List String), NoRefEs D es → SoundEs Q D es es
+  theorem reflEs : ∀ (es : List Expr) (D : List String), NoRefEs D es → SoundEs Q cx D es es
     | [], _, _ => SoundEs.nil
     | e :: es, D, h => SoundEs.cons Iff.rfl (reflE e D (NoRefEs.cons.mp h).1) (reflEs es D (NoRefEs.cons.mp h).2)
-  theorem reflElifs : ∀ (es : List (Expr × Expr)) (D : List String), NoRefElifs D es → SoundElifs Q D es es
+  theorem reflElifs : ∀ (es : List (Expr × Expr)) (D : List String), NoRefElifs D es → SoundElifs Q cx D es es
     | [], _, _ => SoundElifs.nil
     | (c, t) :: es, D, h =>
       SoundElifs.cons (reflE c D (NoRefElifs.cons.mp h).1) (reflE t D (NoRefElifs.cons.mp h).2.1)
         (reflElifs es D (NoRefElifs.cons.mp h).2.2)
-  theorem reflEntries : ∀ (es : List Entry) (D : List String), NoRefEntries D es → SoundEntries Q D es es
+  theorem reflEntries : ∀ (es : List Entry) (D : List String), NoRefEntries D es → SoundEntries Q cx D es es
     | [], _, _ => SoundEntries.nil
     | .pos v :: es, D, h =>
       SoundEntries.pos Iff.rfl (reflE v D (NoRefEntries.pos.mp h).1) (reflEntries es D (NoRefEntries.pos.mp h).2)
@@ -58,11 +58,11 @@ mutual
     | .keyed k v :: es, D, h =>
       SoundEntries.keyed (reflE k D (NoRefEntries.keyed.mp h).1) (reflE v D (NoRefEntries.keyed.mp h).2.1)
         (reflEntries es D (NoRefEntries.keyed.mp h).2.2)
-  theorem reflSegs : ∀ (es : List Seg) (D : List String), NoRefSegs D es → SoundSegs Q D es es
+  theorem reflSegs : ∀ (es : List Seg) (D : List String), NoRefSegs D es → SoundSegs Q cx D es es
     | [], _, _ => SoundSegs.nil
     | .s _ :: es, D, h => SoundSegs.s (reflSegs es D (NoRefSegs.s.mp h))
     | .v e :: es, D, h => SoundSegs.v (reflE e D (NoRefSegs.v.mp h).1) (reflSegs es D (NoRefSegs.v.mp h).2)
-  theorem reflT : ∀ (e : Expr) (D : List String), NoRefE D e → SoundT Q D e e
+  theorem reflT : ∀ (e : Expr) (D : List String), NoRefE D e → SoundT Q cx D e e
     | .var _, _, h => SoundT.var (NoRefE.var.mp h)
     | .field x _, D, h => SoundT.field (reflE x D (NoRefE.field.mp h))
     | .index x k, D, h => SoundT.index (reflE x D (NoRefE.index.mp h).1) (reflE k D (NoRefE.index.mp h).2)
@@ -74,10 +74,10 @@ mutual
     | .table _, _, _ => SoundT.nonLv rfl rfl | .ifx _ _ _ _, _, _ => SoundT.nonLv rfl rfl
     | .interp _, _, _ => SoundT.nonLv rfl rfl | .cast _ _, _, _ => SoundT.nonLv rfl rfl
     | .inst _ _, _, _ => SoundT.nonLv rfl rfl
-  theorem reflTs : ∀ (es : List Expr) (D : List String), NoRefEs D es → SoundTs Q D es es
+  theorem reflTs : ∀ (es : List Expr) (D : List String), NoRefEs D es → SoundTs Q cx D es es
     | [], _, _ => SoundTs.nil
     | e :: es, D, h => SoundTs.cons (reflT e D (NoRefEs.cons.mp h).1) (reflTs es D (NoRefEs.cons.mp h).2)
-  theorem reflS : ∀ (s : Stmt) (D : List String), NoRefS D s → SoundS Q D s s
+  theorem reflS : ∀ (s : Stmt) (D : List String), NoRefS D s → SoundS Q cx D s s
     | .assign ts vs, D, h => SoundS.assign (reflTs ts D (NoRefS.assign.mp h).1) (reflEs vs D (NoRefS.assign.mp h).2)
     | .cassign _ t v, D, h => SoundS.cassign (reflT t D (NoRefS.cassign.mp h).1) (reflE v D (NoRefS.cassign.mp h).2)
     | .callStmt c, D, h => SoundS.callStmt (reflE c D (NoRefS.callStmt.mp h))
@@ -104,19 +104,19 @@ mutual
     | .while_ c b, D, h => SoundS.while_ (reflE c D (NoRefS.while_.mp h).1) (reflB b D (NoRefS.while_.mp h).2)
     | .typeDecl _ _ _, _, _ => SoundS.typeDecl
     | .typeFn _ _ _, _, _ => SoundS.typeFn
-  theorem reflBranches : ∀ (es : List (Expr × Block)) (D : List String), NoRefBranches D es → SoundBranches Q D es es
+  theorem reflBranches : ∀ (es : List (Expr × Block)) (D : List String), NoRefBranches D es → SoundBranches Q cx D es es
     | [], _, _ => SoundBranches.nil
     | (c, b) :: es, D, h =>
       SoundBranches.cons (reflE c D (NoRefBranches.cons.mp h).1) (reflB b D (NoRefBranches.cons.mp h).2.1)
         (reflBranches es D (NoRefBranches.cons.mp h).2.2)
-  theorem reflSs : ∀ (ss : List Stmt) (D : List String), NoRefSs D ss → SoundSs Q D ss ss D
+  theorem reflSs : ∀ (ss : List Stmt) (D : List String), NoRefSs D ss → SoundSs Q cx D ss ss D
     | [], _, _ => SoundSs.nil
     | s :: ss, D, h => SoundSs.cons (reflS s D (NoRefSs.cons.mp h).1) (reflSs ss D (NoRefSs.cons.mp h).2)
-  theorem reflL : ∀ (l : Last) (D : List String), NoRefL D l → SoundL Q D l l
+  theorem reflL : ∀ (l : Last) (D : List String), NoRefL D l → SoundL Q cx D l l
     | .ret es, D, h => SoundL.ret (reflEs es D (NoRefL.ret.mp h))
     | .brk, _, _ => SoundL.brk
     | .cont, _, _ => SoundL.cont
-  theorem reflB : ∀ (b : Block) (D : List String), NoRefB D b → SoundB Q D b b D
+  theorem reflB : ∀ (b : Block) (D : List String), NoRefB D b → SoundB Q cx D b b D
     | .mk ss none, D, h => SoundB.none (reflSs ss D (NoRefB.none.mp h))
     | .mk ss (some l), D, h => SoundB.some (reflSs ss D (NoRefB.some.mp h).1) (reflL l D (NoRefB.some.mp h).2)
 end
